@@ -1,10 +1,11 @@
 import Driver.OpsEngine
 import Cutplace.Model.Excel
+import Cutplace.Spec.Excel
 namespace Driver
 open Cutplace
 
 /-- cell encoding: `T<hex>` text, `W<int>` whole number, `N<hex>` other number (its Python repr), `B0/B1`,
-`D<days>:<seconds>` date, `X<hex>` error text, `E` empty -/
+`D<days>:<seconds>` date, `C<y>-<m>-<d>:<seconds>` date given as civil date, `X<hex>` error text, `E` empty -/
 def decXCell (s : String) : XCell :=
   let body := (s.drop 1).toString
   match s.front with
@@ -14,6 +15,12 @@ def decXCell (s : String) : XCell :=
   | 'B' => .bool (body == "1")
   | 'D' => match body.splitOn ":" with
            | [d, sec] => .date d.toNat! sec.toNat!
+           | _ => .empty
+  | 'C' => -- a civil date `y-m-d:seconds`: the serial number comes from the specification's calendar (`excelSerial`)
+           match body.splitOn ":" with
+           | [ymd, sec] => match ymd.splitOn "-" with
+             | [y, m, d] => .date (excelSerial y.toNat! m.toNat! d.toNat!) sec.toNat!
+             | _ => .empty
            | _ => .empty
   | 'X' => .error (decStr body)
   | _ => .empty
